@@ -47,6 +47,8 @@ def configs(tier, seed):
             for grid in ("unit", "uneven"):
                 ek = "x".join(f"{l}{k}" for l, k in extra.items()) or "-"
                 out.append(dict(h="cohorts", op=kind + "again", key=f"cohorts/{kind}/grid={grid}/n=3/extra={ek}/computed_before", kind=kind, grid=grid, n=3, extra=extra, again=True))
+                # ... the new driver written through the values buffer instead of replacing it
+                out.append(dict(h="cohorts", op=kind + "againw", key=f"cohorts/{kind}/grid={grid}/n=3/extra={ek}/computed_before_driver_written_in_place", kind=kind, grid=grid, n=3, extra=extra, again="inplace"))
     # a second model of the same class and shape is computed before the first one's tables are read (two stocks of one system)
     for kind in KINDS:
         for other in ("same_kind", "idsm"):
@@ -64,6 +66,11 @@ def configs(tier, seed):
             for ps in ("t", "tr", "r"):
                 for grid in (["unit", "uneven"] if tier == "quick" else dsm.GRIDS):
                     out.append(dict(h="realclass", op=kind + lt, key=f"realclass/{kind}/{lt}/prm={ps}/grid={grid}", kind=kind, lt=lt, ps=ps, grid=grid, n=3 if kind != "idsm" else 4, extra={"r": 2}))
+                    if ps == "r" and grid == "uneven" and kind == "idsm":
+                        # a public setting of the lifetime model object is assigned after a first compute (no set_prms): whatever
+                        # tables the second compute uses, the survival and the outflow table belong together
+                        for setting in ("n_pts_per_interval", "inflow_at"):
+                            out.append(dict(h="realclass", op=kind + lt + "set", key=f"realclass/{kind}/{lt}/prm={ps}/grid={grid}/{setting}_assigned_after_first_compute", kind=kind, lt=lt, ps=ps, grid=grid, n=3, extra={"r": 2}, assign=setting))
                     if ps == "r" and grid == "uneven":
                         # the shipped classes with the other inflow instants (the cohort enters at the start / end of its interval)
                         for ia in ("start", "end"):
@@ -127,10 +134,20 @@ def run(cfg, w):
         first = w.arr("before", shape)
         st = dsm.build_stock(kind, dims, lifetime=lifetime, **{k: first for k in drive})
         st.compute()
-        (st.inflow if kind == "idsm" else st.stock).set_values(list(drive.values())[0].copy())
+        if cfg["again"] == "inplace":
+            (st.inflow if kind == "idsm" else st.stock).values[...] = list(drive.values())[0]
+        else:
+            (st.inflow if kind == "idsm" else st.stock).set_values(list(drive.values())[0].copy())
     else:
         st = dsm.build_stock(kind, dims, lifetime=lifetime, **drive)
     st.compute()
+    if cfg.get("assign"):
+        if cfg["assign"] == "n_pts_per_interval":
+            st.lifetime_model.n_pts_per_interval = 3
+        else:
+            st.lifetime_model.inflow_at = "start"
+        st.compute()
+        tab = st.lifetime_model.sf  # the table the model now stands for
     if cfg.get("second"):
         k2 = kind if cfg["second"] == "same_kind" else "idsm"
         tab2 = dsm.sf_table(w, n, shape[1:], name="sg", constrain=("range",), diag_min=(0.05 if k2.startswith("sdsm") else None))
